@@ -43,6 +43,8 @@ def run(ctx, F, cg):
             ctx.ok("R06j", "finish_bulk_load|compaction", "compaction reached on every path")
         else:
             ctx.violation("R06j", "finish_bulk_load|compaction|conditional", where(fb), "finish_bulk_load can return without compacting the write buffer")
+    ctx.rule("R06l", "every relationship creator links the new relationship into both adjacency directions on every path to Ok")
+    sr.creators_link_on_every_path(ctx, F, cg, "R06l")
     ctx.rule("R06k", "(shared with C05) a store mutator that fails has changed nothing — in particular it has not handed an id back to the allocator: an id freed by a failed delete is allocated twice")
     sr.validate_then_mutate(ctx, F, cg, "R06k", kinds=("node-add", "node-kill", "edge-add", "edge-kill"), floor=5)
     # ---- R06f ------------------------------------------------------------------------------------------
